@@ -13,8 +13,17 @@ Sub-checks
   mesh            rectangular, rectangular_phase_end, rectangular_MZ, rectangular_symmetric, triangular
   compact         triangular_compact, rectangular_compact, sun_compact (n >= 3)
   graph_embed     graph_embed / bipartite_graph_embed: c A == U diag(tanh(-r)) V^T with c > 0, sum sinh^2 r == n * mean photon
-  invalid         valid matrix + perturbation at 0.1x .. 10x the routine's own tolerance in the routine's own norm, and
+  invalid         valid matrix + perturbation at 0.01x .. 1e4x the routine's own tolerance in the routine's own norm, and
                   non-square / odd-sized / not positive definite / too small inputs
+
+Failure signatures name the root cause.  For the weak spots found so far the oracle re-derives the trigger independently of
+the routine's output (so that any OTHER failure of the same routine keeps a generic signature and is a VIOLATION):
+  _takagi_rootcause   complex path: (nearly) equal singular values that np.round(., 13) tells apart; a degenerate block
+                      whose phase matrix v^T w has two eigenvalues at -1 (sqrtm branch cut)
+  _bm_verdict         F38 (unit singular value of multiplicity >= 4, everything right except symplecticity) and the
+                      9-decimal analogue of the takagi rounding problem
+  _sun_diagnose       own re-run of sun_compact's documented recursion: vanishing column tail (F15), near-unit corner of the
+                      3x3 block (F43), predicted error amplification, SU(2) factors with cos(beta/2) < 1.5e-5
 """
 from __future__ import annotations
 
@@ -45,6 +54,11 @@ ASSUMPTIONS = [
     "inputs must reconstruct to 1e-8 + 100 * (size of the violation)",
     "the compact decompositions are interpreted as ops._triangular_compact_cmds / _rectangular_compact_cmds / "
     "_sun_compact_cmds (the only callers) interpret them",
+    "bloch_messiah: only the documented pairing diag(Z) = (s_1..s_n, 1/s_1..1/s_n), positivity and the multiset of singular "
+    "values are demanded, not a particular order of the s_i (none is documented); takagi: non-increasing order (stated by the "
+    "code comments, relied upon by graph_embed_deprecated and bloch_messiah)",
+    "root-cause classifiers may call numpy's svd exactly as the routine does and thewalrus.adj_scaling (third-party) to see the "
+    "same floating-point singular values; they only choose the signature of a failure, never whether a case fails",
 ]
 REQUIRED_LABELS = {"all": ["takagi", "williamson", "bloch_messiah", "rectangular", "rectangular_phase_end", "rectangular_MZ",
                            "rectangular_symmetric", "triangular", "triangular_compact", "rectangular_compact", "sun_compact",
@@ -435,6 +449,9 @@ def check_williamson(ctx, case):
     try:
         Db, S = dec.williamson(V)
     except ValueError as exc:
+        if isinstance(exc, np.linalg.LinAlgError) and "Schur form not found" in str(exc):
+            return ctx.fail("williamson.lapack_schur_not_converged",
+                            "scipy.linalg.schur (LAPACK QR iteration) does not converge on V^-1/2 Omega V^-1/2 of this valid matrix: %s" % exc)
         return ctx.fail("williamson.rejects_valid", "valid positive definite matrix rejected: %s" % exc)
     except Exception as exc:  # pylint: disable=broad-except
         return ctx.crash(exc, "williamson")
@@ -801,6 +818,17 @@ def _sun_rootcause(U, outcome, err=0.0):
     if outcome == "wrong" and small and err <= 3e-5:
         return ("sun_compact.su2_parameters_snaps_beta_to_pi",
                 "_su2_parameters replaces |U[0,1]| within 1e-10 of 1 by exactly 1 (beta = pi), discarding cos(beta/2) = %s" % small)
+    # beta = 2 arcsin |U[0,1]| (instead of atan2 of both moduli) divides the non-unitarity of the factor by cos(beta/2)
+    dlt = _unit_err(U) + 1e-16
+    ill = [c for c in d["cos"] if 1e-9 < c < 1e-2 and err <= 100 * dlt / c]
+    if outcome == "wrong" and ill:
+        return ("sun_compact.su2_parameters_snaps_beta_to_pi",
+                "beta = 2 arcsin|U[0,1]| is ill-conditioned at |U[0,1]| ~ 1: the input's non-unitarity %.3g (within tolerance) is divided by "
+                "cos(beta/2) = %s" % (dlt, ill))
+    if outcome == "wrong" and (d["tail"] < 2e-2 or d["amp"] >= 3e3) and err <= 1e-6:
+        return ("sun_compact.staircase_error_growth",
+                "cf is taken from 1 - sum |c_k|^2 instead of from the entries: rounding errors are amplified by ~%.3g (smallest column tail "
+                "%.3g); here the result is inaccurate instead of rejected" % (d["amp"], d["tail"]))
     if outcome == "rejected" and d["amp"] >= 3e3:
         return ("sun_compact.staircase_error_growth",
                 "cf is taken from 1 - sum |c_k|^2 instead of from the entries: rounding errors are amplified by ~%.3g over the %d "
@@ -898,6 +926,11 @@ def graph_case(draw, nmax):
     sym = routine == "graph_embed" or (kind != "takagi_form" and draw(st.booleans()))
     if sym:
         A = (A + A.T) / 2
+    if routine == "bipartite_graph_embed" and sym and n >= 2 and draw(st.integers(0, 3)) == 0:
+        # nearly symmetric biadjacency matrix: any square matrix is a valid input of this routine
+        kind = "nearly_symmetric"
+        A = A.astype(complex)
+        A[0, 1] += draw(st.sampled_from([1e-10, 1e-9, 1e-8, 1e-7, 1e-6]))
     if _maxabs(A) < 0.1:
         A = A.astype(complex)
         A[0, 0] += 1.0
@@ -924,12 +957,18 @@ def check_graph(ctx, case):
         else:
             r, U, V = dec.bipartite_graph_embed(A, mean_photon_per_mode=mp)
     except ValueError as exc:
+        asym = _maxabs(A - A.T)
+        if routine == "bipartite_graph_embed" and "not symmetric" in str(exc) and 0 < asym < 1e-4 * _maxabs(A):
+            return ctx.fail("bipartite_graph_embed.nearly_symmetric_input_rejected_by_takagi",
+                            "any square matrix is valid here, but |A - A^T| = %.3g passes the routine's elementwise allclose(rtol 1e-5) test, so "
+                            "takagi is called, whose Frobenius-norm test with tol = atol raises: %s" % (asym, exc))
         return ctx.fail("%s.rejects_valid" % routine, "valid matrix rejected: %s" % exc)
     except Exception as exc:  # pylint: disable=broad-except
         return ctx.crash(exc, routine)
     At = A - np.trace(A) / n * np.eye(n) if mt else A
     col = _Collect()
-    _graph_verdict(col, routine, At, r, U, V, mp, TOL)
+    # a nearly symmetric matrix that takagi accepts is embedded as its symmetric part: looser bound by the asymmetry
+    _graph_verdict(col, routine, At, r, U, V, mp, TOL + (10 * _maxabs(A - A.T) if case["kind"] == "nearly_symmetric" else 0.0))
     if col.failed:
         # both routines hand the scaled matrix to takagi: a failure there is takagi's (same scale as the routine: thewalrus'
         # deterministic root finder, third-party code)
@@ -1222,7 +1261,7 @@ def check_invalid(ctx, case):
         ctx.label("rejected_with:" + type(exc).__name__)
         if expect == "accept":
             if routine == "sun_compact" and isinstance(exc, ValueError) and "determinant 1" in str(exc):
-                if tol is not None and tol > 1e-10 and size > 2e-11:
+                if tol is not None and tol > 1e-10 and size > 1e-12:
                     return ctx.fail("sun_compact.fixed_su2_determinant_tolerance_ignores_rtol_atol",
                                     "sun_compact(U, rtol=%g, atol=%g): U passes the unitarity test (violation %.3g = %.2g x tolerance) but "
                                     "_su2_parameters tests det == 1 with a fixed 1e-10: %s" % (tol, tol, size, rho, exc))
@@ -1253,19 +1292,19 @@ def check_invalid(ctx, case):
 
 # ---------------------------------------------------------------------------------------------
 SUBS = [
-    Sub("takagi", check=check_takagi, strategy=lambda ctx: takagi_case(_nmax(ctx)), examples={"quick": 1500, "thorough": 12000},
+    Sub("takagi", check=check_takagi, strategy=lambda ctx: takagi_case(_nmax(ctx)), examples={"quick": 1500, "thorough": 6000},
         shards={"quick": 2, "thorough": 16}, rule="A = W diag(sv) W^T (complex / real / zero / diagonal / graphs / Gaussian integers / gaps 1e-14..1e-6)"),
-    Sub("williamson", check=check_williamson, strategy=lambda ctx: williamson_case(_nmax(ctx)), examples={"quick": 900, "thorough": 8000},
+    Sub("williamson", check=check_williamson, strategy=lambda ctx: williamson_case(_nmax(ctx)), examples={"quick": 900, "thorough": 4000},
         shards={"quick": 2, "thorough": 16}, rule="V = S D S^T: pure, thermal, mixed with zero occupations, sub-unit spectra, any hbar"),
-    Sub("bloch_messiah", check=check_bm, strategy=lambda ctx: bm_case(_nmax(ctx)), examples={"quick": 900, "thorough": 8000},
+    Sub("bloch_messiah", check=check_bm, strategy=lambda ctx: bm_case(_nmax(ctx)), examples={"quick": 900, "thorough": 4000},
         shards={"quick": 2, "thorough": 16}, rule="S = O1 Z O2 with drawn multiplicities of r (zeros, repeats), passive, diagonal, O1 Z, Z O2"),
-    Sub("mesh", check=check_mesh, strategy=lambda ctx: unitary_case(1, _nmax(ctx)), examples={"quick": 1200, "thorough": 10000},
+    Sub("mesh", check=check_mesh, strategy=lambda ctx: unitary_case(1, _nmax(ctx)), examples={"quick": 1200, "thorough": 5000},
         shards={"quick": 2, "thorough": 16}, rule="structured unitaries through rectangular / phase_end / MZ / symmetric / triangular"),
-    Sub("compact", check=check_compact, strategy=lambda ctx: unitary_case(1, _nmax(ctx)), examples={"quick": 1200, "thorough": 10000},
+    Sub("compact", check=check_compact, strategy=lambda ctx: unitary_case(1, _nmax(ctx)), examples={"quick": 1200, "thorough": 5000},
         shards={"quick": 2, "thorough": 16}, rule="structured unitaries through triangular_compact / rectangular_compact / sun_compact"),
-    Sub("graph_embed", check=check_graph, strategy=lambda ctx: graph_case(_nmax(ctx)), examples={"quick": 500, "thorough": 5000},
+    Sub("graph_embed", check=check_graph, strategy=lambda ctx: graph_case(_nmax(ctx)), examples={"quick": 500, "thorough": 3000},
         shards={"quick": 2, "thorough": 16}, rule="symmetric / bipartite adjacency matrices, mean photon 0.01..5, make_traceless"),
-    Sub("invalid", check=check_invalid, strategy=lambda ctx: invalid_case(_nmax(ctx)), examples={"quick": 1500, "thorough": 12000},
+    Sub("invalid", check=check_invalid, strategy=lambda ctx: invalid_case(_nmax(ctx)), examples={"quick": 1500, "thorough": 6000},
         shards={"quick": 2, "thorough": 16}, rule="valid + perturbation of 0.01x..1e4x the routine's tolerance, non-square, odd, indefinite, too small"),
 ]
 
